@@ -306,6 +306,9 @@ Ltac step_inv_gen H first_do :=
   | Hk : e_k _ = KSnapCollect ?x |- _ => is_var x; let ss := fresh "ss" in rename x into ss
   end;
   bool_hyps;
+  repeat match goal with
+  | Hp : context [phase_of (tick ?s ?tm) ?r] |- _ => change (phase_of (tick s tm) r) with (phase_of s r) in Hp
+  end;
   try match goal with
   | Hq : nget (reqs ?s) ?r = Some ?q |- _ =>
     assert (phase_of s r = Some (r_phase q)) by (unfold phase_of; rewrite Hq; reflexivity);
